@@ -10,6 +10,7 @@ import IbicusModel.Props.C07
 #print axioms Props.C07.years_cover_unique
 #print axioms Props.C07.years_adjusted_subset_window
 #print axioms Props.C07.yearCenters_nonempty_adjust
+#print axioms Props.C07.applyLocationRW_written_once
 #print axioms Props.C07.applyLocationRW_all_some
 #print axioms Props.C07.applyLocationDC_all_some
 #print axioms Props.C07.applyYears_all_some
